@@ -75,6 +75,20 @@ def check(ctx):
     for name in ("closeIx", "closeAllIx"):
         f = ctx.cls("tcp.serving", "Server").own_method(name)
         ctx.check(".close()" in src(f), "T2-remove", f, "%s closes" % name, "")
+    # shutclose(): the socket is closed on every path on which the entry forgets it (cs = None), also when shutdown raises
+    ctx.rule("T2-shutclose", "Incomer/IncomerTls.shutclose: cs.close() on every path to `self.cs = None`, incl. a failing shutdown")
+    for cn in ("Incomer", "IncomerTls"):
+        m = ctx.cls("tcp.serving", cn).methods.get("shutclose")
+        if m is None:
+            raise AnchorError("%s.shutclose not found" % cn)
+        K = FuncView(ctx, m, exc="calls")
+        cl = [n for n, c in K.calls(("self.cs.close", "cs.close"))]
+        forget = [n for n in K.stores("cs") if isinstance(n.ast, ast.Assign) and dotted(n.ast.targets[0]) == "self.cs"
+                  and isinstance(n.ast.value, ast.Constant) and n.ast.value.value is None]
+        ctx.check(bool(cl) and bool(forget) and K.dominated(forget, cl), "T2-shutclose", m,
+                  "%s.shutclose: self.cs.close() precedes `self.cs = None` on every path (a shutdown() that raises included)" % cn,
+                  "when the peer is already gone the socket shutdown raises; if that skips close(), the entry leaves the table "
+                  "while its socket is never closed")
     S = ctx.cls("tcp.serving", "Server")
     T = ctx.cls("tcp.serving", "ServerTls")
     entries = [S.methods[m] for m in ("serviceAxes", "removeIx", "shutdownIx", "closeIx", "closeAllIx", "serviceConnects")] + \
